@@ -18,7 +18,7 @@ import os
 from vlib import Case, Stream, BUILD, model_cmd
 
 ID = "C09S"
-LEAN_MODULES = ["HgVerif.Props.C09Shape"]
+LEAN_MODULES = ["HgVerif.Props.C09Shape", "HgVerif.Props.C09Capture"]
 THEOREMS = [
     "HgVerif.NestShape.forwarded_delta_eq_body_delta",
     "HgVerif.NestShape.nested_delta_eq_inlined_delta",
@@ -30,6 +30,11 @@ THEOREMS = [
     "HgVerif.NestShape.ghost_iff",
     "HgVerif.NestShape.short_circuit_leaves_unbound",
     "HgVerif.NestShape.composed_result_reticks_unticked_leaf",
+    "HgVerif.Capture.capture_slots_injective_on_ports",
+    "HgVerif.Capture.captured_binding_eq_outer_port",
+    "HgVerif.Capture.captured_binding_through_levels",
+    "HgVerif.Capture.indexFor_frozen_stable",
+    "HgVerif.Capture.node_keyed_table_aliases_ports",
 ]
 CXX_TARGETS = ["hgv_nestshape"]
 RULE = ("nestshape streams: one sub-graph definition with a STRUCTURED result (TS | TSB of 2-4 scalar fields | fixed TSL of "
@@ -43,7 +48,11 @@ RULE = ("nestshape streams: one sub-graph definition with a STRUCTURED result (T
         "first, single ticks); a recorder on the OUTER result logs per cycle the delta and the full value; the monitor "
         "requires every nested run to equal the inlined run cycle by cycle.  Bodies whose result is COMPOSED "
         "(to_tsb/to_tsl) are kept in the separate stream nestshape-composed (known finding [C09-composed]).  thorough adds "
-        "every 3-cycle history of a three-argument TSB{f0,f1,f2} body.  A case is non-trivial when the inlined run "
+        "every 3-cycle history of a three-argument TSB{f0,f1,f2} body.  Stream nestshape-capture: the same bodies with "
+        "CAPTURED outer ports instead of (sc: in addition to) declared arguments - two fields of one outer TSB-producing "
+        "node in either order (cf, cr), two elements of one outer TSL node (cl), the same field twice (cs, control), one "
+        "field each of two nodes (cn, control), two fields through context::scope/get (xf), result styles node / sink / "
+        "proj / captured pass-through - the two captured ports carry different values and tick patterns.  A case is non-trivial when the inlined run "
         "ticked in >=2 cycles; distinct by case text")
 TRUSTED = ["the recorder reads modified()/valid()/value() per LEAF of the outer result (an Unchecked input); what "
            "delta_value()/the dense recorder would capture was cross-checked by hand (HGV_NESTSHAPE_DV=1) only",
@@ -59,14 +68,25 @@ ASSUMPTIONS = ["the nested graph is started with its parent at the start of the 
 NS = [os.path.join(BUILD, "hgv_nestshape")]
 PAIRS = ["ts:s1", "ts:ab", "b2:s2", "b2:ab", "b2:bs", "b3:s3", "b3:s1", "b4:s2", "b4:al", "l2:s1", "l2:al",
          "l3:s2", "l3:bs", "l4:s1", "l4:s3", "bl:s2", "bl:ab", "lb:s2", "lb:al"]
+CAP_KINDS = ["cf", "cr", "cl", "cs", "cn", "xf"]
+CAP_PAIRS = [r + ":" + k for r in ("ts", "b2", "l3") for k in CAP_KINDS] + ["b3:sc"]
+PAIRS = PAIRS + CAP_PAIRS
 LEAVES = {"ts": 1, "b2": 2, "b3": 3, "b4": 4, "l2": 2, "l3": 3, "l4": 4, "bl": 3, "lb": 4}
-CHANS = {"s1": 1, "s2": 2, "s3": 3, "ab": 2, "al": 2, "bs": 3}
+CHANS = {"s1": 1, "s2": 2, "s3": 3, "ab": 2, "al": 2, "bs": 3, "cf": 2, "cr": 2, "cl": 2, "cs": 1, "cn": 2, "xf": 2, "sc": 3}
+
+
+def is_capture(args):
+    return args in CAP_KINDS or args == "sc"
+
+
+def body_chans(args):
+    return 2 if args == "cs" else CHANS[args]
 MODES = ["inl", "n1", "n2", "n3", "n4", "nw"]
 FLAT = ("b2", "b3", "b4", "l2", "l3", "l4")
 
 
 def pass_ok(res, args):
-    return (res == "ts" and args[0] == "s") or (res == "b2" and args in ("ab", "bs")) or (res == "l2" and args == "al")
+    return (res == "ts" and (args[0] == "s" or args in CAP_KINDS)) or (res == "b2" and args in ("ab", "bs")) or (res == "l2" and args == "al")
 
 
 # ----------------------------------------------------------------------------- parsing
@@ -153,6 +173,14 @@ def check_trace(stream, case, out):
         return bad, comp, feats
     feats.update(["res=" + p["res"], "args=" + p["args"], "style=" + p["style"],
                   "timer=" + ("none" if p["timer"] == "t0" else "at-first-eval" if p["timer"][0] == "e" else "in-start")])
+    if is_capture(p["args"]):
+        feats.add("capture:" + {"cf": "two-fields-of-one-TSB-node", "cr": "two-fields-of-one-TSB-node(reverse-order)",
+                                "cl": "two-elements-of-one-TSL-node", "cs": "same-field-twice(control)",
+                                "cn": "fields-of-two-nodes(control)", "xf": "two-fields-via-context-scope",
+                                "sc": "declared-argument+two-captured-fields"}[p["args"]])
+        cols = [c for c in range(CHANS[p["args"]]) if p["args"] != "sc" or c >= 1]
+        if len(cols) >= 2 and any(row[cols[0]] != row[cols[1]] for row in p["hist"]):
+            feats.add("capture:the-two-ports-carry-different-streams")
     for r in p["rules"]:
         feats.add("rule:" + {"A": "any-input", "K": "one-argument", "O": "odd-values-only", "F": "once-at-first-eval",
                              "T": "internal-timer", "N": "never"}.get(r[0], "?") + "/" +
@@ -255,7 +283,11 @@ def valid_case(stream, case, impl_out, model_out):
     if p is None or any("bad-op" in l for l in impl_out):
         return False
     modes = [m for _, m in p["runs"]]
-    return "inl" in modes and len(set(modes)) >= 2 and (p["style"] == "comp") == (stream == "nestshape-composed")
+    if (p["style"] == "comp") != (stream == "nestshape-composed"):
+        return False
+    if stream == "nestshape-capture" and not is_capture(p["args"]):
+        return False
+    return "inl" in modes and len(set(modes)) >= 2
 
 
 def alarm_filter(stream, case, impl_out, model_out):
@@ -337,9 +369,9 @@ def case_lines(idx, res, args, style, timer, rules, hist, modes):
 
 def gen_case(rng, idx, composed=False):
     if composed:
-        pair = rng.choice([p for p in PAIRS if p[:2] in FLAT])
+        pair = rng.choice([p for p in PAIRS if p[:2] in FLAT and p not in CAP_PAIRS])
     else:
-        pair = rng.choice([p for p in PAIRS for _ in range(3 if LEAVES[p[:2]] >= 3 else 2 if pass_ok(*p.split(":")) else 1)])
+        pair = rng.choice([p for p in PAIRS if p not in CAP_PAIRS for _ in range(3 if LEAVES[p[:2]] >= 3 else 2 if pass_ok(*p.split(":")) else 1)])
     res, args = pair.split(":")
     nl, ch = LEAVES[res], CHANS[args]
     if composed:
@@ -369,6 +401,45 @@ def gen_case(rng, idx, composed=False):
     return Case(case_lines(idx, res, args, style, timer, rules, hist, modes), {"pattern": pattern})
 
 
+def gen_capture_case(rng, idx):
+    """a body whose inputs are captured outer ports; the two captured columns carry disjoint value ranges and tick in
+    different cycles, and most leaves follow ONE of them, so that a mis-bound child input shows"""
+    kind = rng.choice(["cf"] * 3 + ["cr"] * 3 + ["cl"] * 2 + ["xf"] * 3 + ["sc"] * 2 + ["cs", "cn"])
+    res = "b3" if kind == "sc" else rng.choice(["ts", "b2", "b2", "l3", "l3"])
+    nl, ch, bch = LEAVES[res], CHANS[kind], body_chans(kind)
+    styles = ["node"] * 6 + ["sink"] * 2 + ["proj"] * 2 + (["pass"] * 3 if pass_ok(res, kind) else [])
+    style = rng.choice(styles)
+    timer = rng.choice(["t0"] * 8 + ["e2", "s1,2"])
+    rules = []
+    for i in range(nl):
+        r = rng.random()
+        j = i % bch if rng.random() < 0.7 else rng.randrange(bch)
+        if r < 0.55:
+            rules.append("K%dx%d" % (j, j))
+        elif r < 0.7:
+            rules.append("Ax%d" % j)
+        elif r < 0.8:
+            rules.append("O%dn" % j)
+        elif r < 0.9:
+            rules.append("Aa")
+        else:
+            rules.append(rng.choice(["Fx%d" % j, "Tn" if timer != "t0" else "K%dn" % j, "Nk0"]))
+    n = rng.choice([3, 4, 5, 6, 7, 8])
+    hist = []
+    for k in range(n):
+        row = []
+        for c in range(ch):
+            p = [0.75, 0.45, 0.6][c % 3]
+            row.append((100 * c + rng.randrange(1, 60)) if rng.random() < p else None)
+        hist.append(row)
+    if all(row[0] is None for row in hist):
+        hist[0][0] = 7
+    if ch >= 2 and all(row[1] is None for row in hist):
+        hist[min(1, n - 1)][1] = 107
+    modes = ["inl", "n1", "n2"] + (["nw"] if rng.random() < 0.25 else []) + (["n3"] if rng.random() < 0.1 else [])
+    return Case(case_lines(idx, res, kind, style, timer, rules, hist, modes), {"pattern": "capture"})
+
+
 def exhaustive_small(start_idx):
     """every 3-cycle history (per cycle any subset of the three arguments ticks) of the TSB{f0,f1,f2} body whose field i
     follows argument i, and of the body whose third field ticks once at the first evaluation"""
@@ -391,12 +462,12 @@ def exhaustive_small(start_idx):
     return cases
 
 
-def _corpus(prefix, exclude=None):
+def _corpus(prefix, exclude=()):
     cdir = os.path.join(os.path.dirname(os.path.dirname(os.path.dirname(os.path.abspath(__file__)))), "corpus", "C09")
     out = []
     if os.path.isdir(cdir):
         for f in sorted(os.listdir(cdir)):
-            if f.startswith(prefix) and not (exclude and f.startswith(exclude)):
+            if f.startswith(prefix) and not any(f.startswith(x) for x in exclude):
                 out.append(Case([l.rstrip("\n") for l in open(os.path.join(cdir, f)) if l.strip()]))
     return out
 
@@ -408,5 +479,9 @@ def streams(rng, tier, seed):
     if tier != "quick":
         cases += exhaustive_small(n)
     comp = [gen_case(rng, 50000 + i, composed=True) for i in range(nc)]
-    return [Stream("nestshape-main", NS, model_cmd("C09Shape"), _corpus("nestshape_", "nestshape_composed_") + cases, timeout=1800),
-            Stream("nestshape-composed", NS, model_cmd("C09Shape"), _corpus("nestshape_composed_") + comp, timeout=1800)]
+    ncap = 150 if tier == "quick" else 4000
+    capt = [gen_capture_case(rng, 70000 + i) for i in range(ncap)]
+    return [Stream("nestshape-main", NS, model_cmd("C09Shape"),
+                   _corpus("nestshape_", ("nestshape_composed_", "nestshape_capture_")) + cases, timeout=1800),
+            Stream("nestshape-composed", NS, model_cmd("C09Shape"), _corpus("nestshape_composed_") + comp, timeout=1800),
+            Stream("nestshape-capture", NS, model_cmd("C09Shape"), _corpus("nestshape_capture_") + capt, timeout=1800)]
